@@ -2,6 +2,8 @@
 
 spec/HistSem.tla          declarative cells (Idx, CellsOf, FillRefOK) and the code's walk (FillOp), loop body
 spec/Histogram.tla        histogram / Histogram as a fill machine: Conservation, ExactlyOne, HalfOpen, OneCell
+spec/HistElement.tla      the element's life cycle: initial bins (plain / bins= / make_bins= / initial_value=), fill, reset;
+                          Conservation relative to the initial content across resets, StepOK, SinceReset
 spec/BinSearch.tla        the interpolation-search loop of get_bin_on_value_1d with a nondeterministic guess
 spec/Trace_Histogram.tla  validation of fills recorded on float meshes (rank abstraction)
 spec/Trace_BinSearch.tla  validation of the loop iterations sampled from the real function (sys.settrace)
@@ -81,6 +83,9 @@ def run(ctx):
         f_fill = pool.submit(ctx.export, "Histogram", "Histogram_export.cfg", min_records=5000)
         f_hist = pool.submit(hl.export_generate, ctx, "Histogram", "Histogram_hist_export.cfg",
                              num=6000 if ctx.thorough else 800, depth=10, min_records=500)
+        # the life cycle of the element: initial bins given in four ways, fill and reset in every order
+        f_elmc = pool.submit(ctx.mc, "HistElement", "HistElement_%s.cfg" % tag, coverage=True, must_cover=("Fill", "Reset"))
+        f_el = pool.submit(ctx.export, "HistElement", "HistElement_export.cfg", min_records=2000)
         f_apa = None
         if ctx.thorough:
             # unbounded integer edges / weights: the loop invariant and conservation are inductive
@@ -120,6 +125,13 @@ def run(ctx):
             use = embs if ctx.thorough else [embs[(k + j) % len(embs)] for j in range(5)]
             m = hl.replay_fills(ctx, rec, use, report, tuples=(k % 5 == 0), variant=k)
             ctx.case(["history", rec], nontrivial=True, traces=m)
+        erecs = f_el.result()
+        for k, rec in enumerate(erecs):
+            use = embs if ctx.thorough else [embs[(k + j) % len(embs)] for j in range(2)]
+            m = hl.replay_element(ctx, rec, use, report)
+            ctx.case(["element", rec], nontrivial=True, traces=m)
+        ctx.sample({"spec_element_lifecycle": erecs[len(erecs) // 2]})
+        f_elmc.result()
         ctx.sample({"spec_fill": frecs[len(frecs) // 3]})
         ctx.sample({"spec_history": hrecs[len(hrecs) // 2]})
         f_mc.result()
